@@ -2,7 +2,7 @@
     the family number; the verdict says whether the implementation's observed
     behaviour equals the model's. *)
 From Coq Require Import List ZArith Bool.
-From FF Require Import Sx Dispatch TaskTree StoreModel StoreCheck PreCheck EngineMon TaskRun ShareData Vars KeeperCheck MutexCheck.
+From FF Require Import Sx Dispatch TaskTree StoreModel StoreCheck PreCheck EngineMon TaskRun ShareData Vars KeeperCheck MutexCheck Commander.
 Import ListNotations.
 Local Open Scope Z_scope.
 
@@ -17,6 +17,7 @@ Definition run_monitor (family : Z) (c : sx) : option bool :=
   | 60 => monitor_keeper c
   | 61 => monitor_alive c
   | 70 => monitor_mutex c
+  | 80 => monitor_admit c
   | _ => if (100 <? family) && (family <? 200) then monitor_journal (family - 100) c else None
   end.
 
@@ -40,6 +41,7 @@ Definition run_case (family : Z) (c : sx) : verdict :=
   | 60 => check_keeper c
   | 61 => check_keeper c
   | 70 => check_mutex c
+  | 80 => check_admit c
   | _ => if (100 <? family) && (family <? 200)
          then match check_journal_store c with OkCase => check_runs c | v => v end
          else BadCase 0
